@@ -286,6 +286,15 @@ def gen_build(rng, b, opts):
         b.add('OPEN "R",1,"FLD.DAT",16:FIELD 1,5 AS F1$,7 AS F2$:LSET F1$="hello":LSET F2$="fld"')
         b.scalars['F1$'] = 'str'
         b.scalars['F2$'] = 'str'
+    if opts.get('mergedel'):
+        # string values that are bare program literals (pointers into program code) early in the program
+        b.add('L1$="%s"' % rand_text(rng, rng.randrange(1, 40)))
+        b.scalars['L1$'] = 'str'
+        b.add('DIM LA$(2)')
+        b.arrays['LA$'] = [2]
+        if b.base is None:
+            b.base = 0
+        b.add('LA$(%d)="%s"' % (b.base, rand_text(rng, rng.randrange(1, 30))))
     # scalars
     nsc = rng.randrange(0, 7)
     for _ in range(nsc):
@@ -293,7 +302,7 @@ def gen_build(rng, b, opts):
         t = rng.choice('%!#$$')
         full = name + t
         if t == '$':
-            kind = rng.choice(['lit', 'cat', 'cat', 'rep'])
+            kind = rng.choice(['lit', 'lit', 'lit', 'cat'] if opts.get('mergedel') else ['lit', 'cat', 'cat', 'rep'])
             n = min(rand_strlen(rng), opts.get('maxlen', 255))
             if kind == 'lit':
                 n = min(n, 100)
@@ -326,7 +335,7 @@ def gen_build(rng, b, opts):
         for ix in els[:rng.randrange(0, min(len(els), 5) + 1)]:
             ref = '%s(%s)' % (full, ','.join(map(str, ix)))
             if t == '$':
-                kind = rng.choice(['lit', 'cat', 'rep'])
+                kind = rng.choice(['lit', 'lit', 'cat'] if opts.get('mergedel') else ['lit', 'cat', 'rep'])
                 n = min(rand_strlen(rng), opts.get('maxlen', 255), 100 if kind == 'lit' else 255)
                 b.add('%s=%s' % (ref, string_expr(rng, kind, n)))
             else:
@@ -342,6 +351,11 @@ def gen_build(rng, b, opts):
             if len(d) == 1:
                 b.add('FOR I9%%=%d TO %d:%s(I9%%)="shared":NEXT' % (b.base or 0, d[0], a))
                 b.scalars['I9%'] = 'num'
+    if opts.get('mergedel'):
+        # ... in the middle and late in the program
+        b.add('LA$(2)="%s"' % rand_text(rng, rng.randrange(1, 30)))
+        b.add('L2$="%s"' % rand_text(rng, rng.randrange(1, 60)))
+        b.scalars['L2$'] = 'str'
     if rng.random() < 0.5:
         b.add('Z1!=RND:Z1!=RND' if rng.random() < 0.7 else 'RANDOMIZE 7:Z1!=RND')
         b.scalars['Z1!'] = 'num'
@@ -393,6 +407,12 @@ def gen_case(rng, kind=None, opts=None):
     where = rng.choice(['prog', 'prog', 'direct'])
     op = {'cmd': cmd}
     stmts, decls = common_decls(rng, b, ['Z9!']) if (cmd == 'CHAIN' or rng.random() < 0.2) else ([], [])
+    if opts.get('mergedel'):
+        extra = [n for n in sorted(b.scalars) if n.endswith('$') and rng.random() < 0.8]
+        extra_a = [n for n in sorted(b.arrays) if n.endswith('$') and rng.random() < 0.8]
+        if extra or extra_a:
+            stmts.append('COMMON ' + ','.join(extra + [n + '()' for n in extra_a]))
+            decls += [[n, 0] for n in extra] + [[n, 1] for n in extra_a]
     for st in stmts:
         b.add(st)
     # phase A: print every variable the program defined
@@ -455,7 +475,7 @@ def gen_case(rng, kind=None, opts=None):
                 'file_r': 'RUN "P2",R', 'nofile': 'RUN "NOFILE"'}[v]
         op.update(text=text, variant=v)
     else:
-        merge = rng.random() < 0.3
+        merge = rng.random() < 0.3 or bool(opts.get('mergedel'))
         allv = rng.random() < 0.3
         v = rng.choice(['ok', 'ok', 'ok', 'ok', 'ok', 'ok', 'nofile', 'noline', 'badrange'])
         v = opts.get('variant', v)
@@ -465,8 +485,15 @@ def gen_case(rng, kind=None, opts=None):
         if merge or v == 'noline' or rng.random() < 0.3:
             jump = 7001 if v == 'noline' else 7000
         delete = None
-        if merge and rng.random() < 0.4 or v == 'badrange':
-            delete = [10, 11 if v == 'badrange' else 20]
+        if merge and rng.random() < 0.4 or v == 'badrange' or opts.get('mergedel'):
+            # a range of state-building lines: literals assigned before / inside / behind it
+            nums = sorted(n for n, _ in b.lines if n < 3000)
+            if len(nums) >= 2 and v != 'badrange':
+                i = rng.randrange(0, len(nums))
+                j = rng.randrange(i, min(len(nums), i + 1 + rng.choice([0, 1, 3, 8, 40])))
+                delete = [nums[i], nums[j]]
+            else:
+                delete = [10, 11 if v == 'badrange' else 20]
         tail = ''
         if jump is not None or allv or delete:
             tail += ',%s' % ('' if jump is None else jump)
@@ -620,6 +647,20 @@ class C23(core.Check):
                         res['rebuilt'] = True
                         return orig_rebuild(store)
                     impl.strings.rebuild = rebuild
+
+                    # program loading is not modelled: a load / merge that fails (Out of memory while the
+                    # lines are stored under a tight memory limit) takes the case out of the correspondence
+                    def guard(fn):
+                        def g(*a, **k):
+                            try:
+                                return fn(*a, **k)
+                            except BaseException:
+                                if res['pre'] is not None and res['post'] is None:
+                                    res['loadfail'] = True
+                                raise
+                        return g
+                    impl.program.merge = guard(impl.program.merge)
+                    impl.program.load = guard(impl.program.load)
 
                     def wrapped(args):
                         if res['pre'] is not None or res.get('argfail'):
@@ -791,8 +832,12 @@ class C23(core.Check):
         out = []
         for i in range(n):
             r = i % 10
-            if r < 6:
+            if r < 5:
                 c = gen_case(rng)
+            elif r < 7:
+                # CHAIN MERGE ...,DELETE a-b with COMMON / ALL strings that are still bare program literals
+                c = gen_case(rng, kind='CHAIN', opts={'mergedel': True, 'variant': 'ok'})
+                hist['mergedel'] = hist.get('mergedel', 0) + 1
             else:
                 c = self.near_limit_case(rng)
             out.append(c)
@@ -863,7 +908,7 @@ class C23(core.Check):
         res = self.run_case(case)
         if case['k'] == 'fresh':
             return [0] + enc_state([], res['post'], [])
-        if res['pre'] is None or res['post'] is None:
+        if res['pre'] is None or res['post'] is None or res.get('loadfail'):
             return [9]                       # the command was not reached (e.g. out of memory while building)
         names = self.names(res)
         body = enc_state(names, res['post'], res['pre']['foreign'])
@@ -877,7 +922,7 @@ class C23(core.Check):
             p = res['post']
             return ('(0 :: enc_state [] (init_state %d %d %d %d))'
                     % (p['total'], p['stack'], p['code_start'], p['prog']))
-        if res['pre'] is None or res['post'] is None:
+        if res['pre'] is None or res['post'] is None or res.get('loadfail'):
             return '[9]'
         names = zll(self.names(res))
         st = coq_state(res['pre'])
@@ -954,6 +999,17 @@ class C23(core.Check):
                 return 'string garbage is no longer collected after the failed %s: %r' % (op['text'], probes.get('gc'))
             return None
         before = dict((k, v) for k, v in TAG.findall(res['outA']))
+        # no string variable may be left pointing at nothing
+        post = res['post']
+        vs = post['code_start'] + post['prog']
+        live = set(a for a, _ in post['strs'])
+        ptrs = [(bytes(bytearray(n)), v) for n, v in post['sc_vars'] if n[-1] == 36 and n[0] < 128 and len(v) == 3]
+        for n, b in post['ar_bufs']:
+            if n[-1] == 36:
+                ptrs += [(bytes(bytearray(n)), b[i:i + 3]) for i in range(0, len(b) - 2, 3)]
+        for n, v in ptrs:
+            if v[0] > 0 and v[1] + 256 * v[2] >= vs and v[1] + 256 * v[2] not in live:
+                return 'string variable %r points at a detached string after %s' % (n, op['text'])
 
         def default(name):
             return '' if name.split('(')[0].endswith('$') else ' 0 '
